@@ -150,18 +150,17 @@ def run_scripted(ctx, exe, env, scns, bits, dist, cov, distinct):
 
     with concurrent.futures.ThreadPoolExecutor(max_workers=8) as ex:
         impl = list(ex.map(one, lines))
+    idxs = list(range(len(scns)))
     for attempt in (0, 1):
-        todo = []
-        for idx, (s, l, (ans, crash)) in enumerate(zip(scns, lines, impl)):
-            verdict = judge_scripted(ctx, s, l, ans, crash, bits, report=(attempt == 1))
-            if verdict == "retry":
-                todo.append(idx)
-        if attempt == 0:
-            if not todo:
-                break
-            if len(todo) <= 3:                      # once more, alone, before anything is said (a loaded machine);
-                for idx in todo:                    # many failures at once are not a matter of timing
-                    impl[idx] = one(lines[idx])
+        verdicts = judge_scripted(ctx, [scns[i] for i in idxs], [lines[i] for i in idxs], [impl[i] for i in idxs], bits,
+                                  report=(attempt == 1))
+        todo = [i for i, v in zip(idxs, verdicts) if v == "retry"]
+        if attempt == 1 or not todo:
+            break
+        if len(todo) <= 3:                          # once more, alone, before anything is said (a loaded machine);
+            for i in todo:                          # many failures at once are not a matter of timing
+                impl[i] = one(lines[i])
+        idxs = todo
     for s, l in zip(scns, lines):
         cov["evaluations"] += 1
         dist["k_scripted"] = dist.get("k_scripted", 0) + 1
@@ -170,57 +169,72 @@ def run_scripted(ctx, exe, env, scns, bits, dist, cov, distinct):
         distinct.add(("dshk", l))
 
 
-def judge_scripted(ctx, s, l, ans, crash, bits, report):
-    """compare one scripted run with the model and the specification; 'retry' = a mismatch that is reported only when it
-    shows again"""
-    case = {"op": l, "kind": s["kind"], "k_scn": {"S": s["S"], "k": s["k"], "fanout": s["fanout"], "kind": s["kind"],
-                                                  "hosts": [list(h) for h in s["hosts"]]}}
-    if crash is not None or not ans:
-        if report:
-            ctx.offender("crash", "dsh() harness aborts/hangs on a -k run: %s" % (crash or "")[-400:], case)
-        return "retry"
-    p = parse_answer(ans[0])
-    if p is None:
-        if report:
-            ctx.disagreement("exit model vs dsh() (-k)", "unparsable answer `%s`" % ans[0], case)
-        return "retry"
-    returned, status, events, hung = p
-    case["impl"] = ans[0]
-    if hung:
-        if report:
-            ctx.offender("timeout", "dsh() with -k did not end within 15 s although a target had failed (%s)" % s["kind"], case)
-        return "retry"
-    evs, signalled, connected, late = reconstruct(s, events)
-    ml = model_line(s, evs)
-    m = ctx.model("exit", ml + "\n", args=["model", bits])[0]
-    case["model_op"], case["model"] = ml, m
-    pm = parse_model(m)
-    bad = None
-    if pm is None:
-        bad = "the model does not end on the reconstructed schedule: `%s`" % m
-    elif status is None or pm["exit"] != status:
-        bad = "exit status %s, model %s" % (status, pm["exit"])
-    elif returned != (pm["how"] == "ret"):
-        bad = "dsh() %s, model says the process is ended by `%s`" % ("returned" if returned else "did not return", pm["how"])
-    elif pm["sig"] != signalled:
-        bad = "targets that were sent SIGTERM: %s, model (exactly those inside their poll loop): %s" % (signalled, pm["sig"])
-    elif late:
-        bad = "targets %s were started after the run had been ended" % late
-    if bad:
-        if report:
-            ctx.disagreement("exit model (-k transition system) vs dsh()", bad, case)
-        return "retry"
-    # oracle: the property's clause
-    if status is not None:
-        sp = ctx.model("exit", spec_query(s, status) + "\n", args=["spec"])[0]
-        if sp != "ok":
+def judge_scripted(ctx, scns, lines, impl, bits, report):
+    """compare scripted runs with the model and the specification (one model call for all of them); per run 'ok' or
+    'retry' = a mismatch that is reported only when it shows again"""
+    verdicts = ["ok"] * len(scns)
+    recs = [None] * len(scns)
+    for i, (s, l, (ans, crash)) in enumerate(zip(scns, lines, impl)):
+        case = {"op": l, "kind": s["kind"], "k_scn": {"S": s["S"], "k": s["k"], "fanout": s["fanout"], "kind": s["kind"],
+                                                      "hosts": [list(h) for h in s["hosts"]]}}
+        if crash is not None or not ans:
+            if report:
+                ctx.offender("crash", "dsh() harness aborts/hangs on a -k run: %s" % (crash or "")[-400:], case)
+            verdicts[i] = "retry"
+            continue
+        p = parse_answer(ans[0])
+        if p is None:
+            if report:
+                ctx.disagreement("exit model vs dsh() (-k)", "unparsable answer `%s`" % ans[0], case)
+            verdicts[i] = "retry"
+            continue
+        returned, status, events, hung = p
+        case["impl"] = ans[0]
+        if hung:
+            if report:
+                ctx.offender("timeout", "dsh() with -k did not end within 15 s although a target had failed (%s)" % s["kind"], case)
+            verdicts[i] = "retry"
+            continue
+        evs, signalled, connected, late = reconstruct(s, events)
+        case["model_op"] = model_line(s, evs)
+        recs[i] = (case, returned, status, signalled, late, ans[0])
+    live = [i for i in range(len(scns)) if recs[i] is not None]
+    mod = ctx.model("exit", "".join(recs[i][0]["model_op"] + "\n" for i in live), args=["model", bits]) if live else []
+    need_spec = []
+    for i, m in zip(live, mod):
+        case, returned, status, signalled, late, ans0 = recs[i]
+        s = scns[i]
+        case["model"] = m
+        pm = parse_model(m)
+        bad = None
+        if pm is None:
+            bad = "the model does not end on the reconstructed schedule: `%s`" % m
+        elif status is None or pm["exit"] != status:
+            bad = "exit status %s, model %s" % (status, pm["exit"])
+        elif returned != (pm["how"] == "ret"):
+            bad = "dsh() %s, model says the process is ended by `%s`" % ("returned" if returned else "did not return", pm["how"])
+        elif pm["sig"] != signalled:
+            bad = "targets that were sent SIGTERM: %s, model (exactly those inside their poll loop): %s" % (signalled, pm["sig"])
+        elif late:
+            bad = "targets %s were started after the run had been ended" % late
+        if bad:
+            if report:
+                ctx.disagreement("exit model (-k transition system) vs dsh()", bad, case)
+            verdicts[i] = "retry"
+        elif status is not None:
+            need_spec.append(i)
+    sp = ctx.model("exit", "".join(spec_query(scns[i], recs[i][2]) + "\n" for i in need_spec), args=["spec"]) if need_spec else []
+    for i, v in zip(need_spec, sp):
+        if v != "ok":
+            case, returned, status, signalled, late, ans0 = recs[i]
+            s = scns[i]
             if report:
                 ctx.offender("k:failure-exit-0" if s["k"] else "%s:unexplained" % ("S" if s["S"] else "plain"),
                              "dsh() with flags %s%s and outcomes [%s] ends with `%s`, which the specification does not admit"
-                             % ("-S " if s["S"] else "", "-k" if s["k"] else "", ",".join(h[2] for h in s["hosts"]), ans[0]),
+                             % ("-S " if s["S"] else "", "-k" if s["k"] else "", ",".join(h[2] for h in s["hosts"]), ans0),
                              dict(case, where="dsh()-k", spec_query=spec_query(s, status)))
-            return "retry"
-    return "ok"
+            verdicts[i] = "retry"
+    return verdicts
 
 
 # ------------------------------------------------------------------------------------------------ the real binary
